@@ -10,8 +10,11 @@ C13 — model of the command tokenizer:
 Python exceptions are constructors of `PR`.  `\N{name}` escapes need the Unicode name table and are
 outside the model: the decoder stops with `outside`.  CPython's recursion limit is not modelled
 (the model recurses on a fuel that is proved sufficient in `Props.lean`).
-Strings with lone surrogates are outside the model's input type (`List Char`); *tokens* may contain
-them (`"\ud800"`), so tokens are lists of code points (`List Nat`).
+Input strings with lone surrogates are outside the model's input type (`List Char`).  *Tokens* may
+contain them: the escapes `\ud800`…`\udfff` inside quotes decode to a Python `str` holding a lone
+surrogate, which the latin-1/utf-8 step cannot re-read and `_handleToken` returns as it is (a `str`
+that cannot be encoded — known finding C13-surrogate-escape-token).  Tokens are therefore lists of
+code points (`List Nat`), not `Str`; the model reproduces those tokens exactly.
 -/
 import LimnoriaModel.Py.Basic
 import LimnoriaModel.Gen.Tokenizer
